@@ -328,7 +328,7 @@ func replay(path, mismatchOut string) {
 		return
 	}
 	distinct := vtrace.NewDistinct()
-	steps, skipped, mismatched, followed, nviol := 0, 0, 0, 0, 0
+	steps, skipped, mismatched, followed, nviol, longKept := 0, 0, 0, 0, 0, 0
 	reported := map[string]int{}
 	samples, nb := 0, 0
 	err = forEachBehaviour(path, func(bi int, b []step) {
@@ -385,7 +385,11 @@ func replay(path, mismatchOut string) {
 			}
 			if bad {
 				mismatched++
-				if mismatched <= 40 {
+				// keep the first few and then prefer longer behaviours (a defect usually needs a few steps to show)
+				if mismatched <= 15 || (len(b) >= 6 && longKept < 60) {
+					if mismatched > 15 {
+						longKept++
+					}
 					// re-run the inputs on a fresh cache, recording the projected state after every step
 					s2, _ := newSut(kind, vtrace.Int(in["nc"]), vtrace.Int(in["mi"]), vtrace.Int(in["mb"]), vtrace.Int(in["ev"]))
 					log = log[:1]
